@@ -113,16 +113,20 @@ Section Steps.
 End Steps.
 
 (* ------------------------------------------------------------ variable area *)
+Ltac unf :=
+  unfold FLAG_WORD_BYTES, VAR_SLOT_BYTES, VARS_STACK_START, MAX_VARS,
+         EmitFacts.flag_word_bytes, EmitFacts.flag_index_div, EmitFacts.flag_index_rem,
+         EmitFacts.var_slot_bytes, EmitFacts.vars_stack_start, EmitFacts.max_vars in *.
 Lemma flag_addr_aligned : forall slot, aligned (flag_addr slot + 0) = true.
 Proof.
-  intros slot. unfold aligned, flag_addr, FLAG_WORD_BYTES. rewrite Z.add_0_r.
+  intros slot. unfold aligned, flag_addr. unf. rewrite Z.add_0_r.
   apply andb_true_iff. split.
   - apply Z.leb_le. apply Z.mul_nonneg_nonneg; [apply Z.div_pos|]; lia.
   - apply Z.eqb_eq. apply Z_mod_mult.
 Qed.
 Lemma slot_addr_aligned : forall slot, aligned (slot_addr slot + VARS_STACK_START) = true.
 Proof.
-  intros slot. unfold aligned, slot_addr, VAR_SLOT_BYTES, VARS_STACK_START, MAX_VARS.
+  intros slot. unfold aligned, slot_addr. unf.
   apply andb_true_iff. split.
   - apply Z.leb_le. change (2048 / 8) with 256. lia.
   - apply Z.eqb_eq. change (2048 / 8) with (32 * 8). rewrite <- Z.mul_add_distr_r. apply Z_mod_mult.
@@ -130,17 +134,17 @@ Qed.
 Lemma flag_below_slots : forall s1 s2, (s1 < Z.to_nat MAX_VARS)%nat ->
   flag_addr s1 <> slot_addr s2 + VARS_STACK_START.
 Proof.
-  intros s1 s2 H. unfold flag_addr, slot_addr, FLAG_WORD_BYTES, VAR_SLOT_BYTES, VARS_STACK_START, MAX_VARS in *.
+  intros s1 s2 H. unfold flag_addr, slot_addr in *. unf.
   change (2048 / 8) with 256. change (Z.to_nat 2048) with 2048%nat in H.
   assert (Z.of_nat s1 / 64 < 32) by (apply Z.div_lt_upper_bound; lia). lia.
 Qed.
 Lemma slot_addr_inj : forall s1 s2, slot_addr s1 + VARS_STACK_START = slot_addr s2 + VARS_STACK_START -> s1 = s2.
-Proof. intros s1 s2 H. unfold slot_addr, VAR_SLOT_BYTES in H. lia. Qed.
+Proof. intros s1 s2 H. unfold slot_addr in H. unf. lia. Qed.
 
 (* the bit of a flag word that belongs to a slot *)
-Definition flag_pos (slot : nat) : Z := Z.of_nat slot mod 64.
+Definition flag_pos (slot : nat) : Z := Z.of_nat slot mod EmitFacts.flag_index_rem.
 Lemma flag_pos_range : forall slot, 0 <= flag_pos slot < 64.
-Proof. intros. unfold flag_pos. apply Z.mod_pos_bound. lia. Qed.
+Proof. intros. unfold flag_pos. unf. apply Z.mod_pos_bound. lia. Qed.
 
 Lemma flag_bit_spec : forall slot j, 0 <= j < 64 ->
   Z.testbit (flag_bit slot) j = (j =? flag_pos slot).
@@ -231,7 +235,7 @@ Definition write_slot (st : state) (slot : nat) (z : Z) : state :=
 Lemma same_word_same_pos : forall s1 s2,
   flag_addr s1 = flag_addr s2 -> flag_pos s1 = flag_pos s2 -> s1 = s2.
 Proof.
-  intros s1 s2 Ha Hp. unfold flag_addr, flag_pos, FLAG_WORD_BYTES in *.
+  intros s1 s2 Ha Hp. unfold flag_addr, flag_pos in *. unf.
   pose proof (Z.div_mod (Z.of_nat s1) 64 ltac:(lia)). pose proof (Z.div_mod (Z.of_nat s2) 64 ltac:(lia)). lia.
 Qed.
 
